@@ -495,6 +495,11 @@ func readDnsMsgFromBufio(reader *bufio.Reader, timeout time.Duration, conn net.C
 	if err := msg.Unpack(data); err != nil {
 		return nil, 0, err
 	}
+	if msg.Response {
+		// Not a query: leave the bytes in the reader so that a caller falling
+		// back to the TCP relay still forwards them.
+		return nil, 0, fmt.Errorf("DNS message is a response, not a query")
+	}
 
 	// Consume the data by discarding it
 	_, err = reader.Discard(int(2 + length))
